@@ -2,9 +2,12 @@ package props
 
 import (
 	"go/ast"
+	"go/constant"
 	"go/token"
 	"go/types"
 	"strings"
+
+	"golang.org/x/tools/go/packages"
 
 	"verif/checker/internal/an"
 )
@@ -155,9 +158,114 @@ type c15Roles struct {
 	e *c15Env
 	f *an.Func
 	r *c15Resolver
+	// set when the roles are evaluated inside a helper (declared function or
+	// local closure) on behalf of a call site: the helper's parameters stand for
+	// the arguments of that call, classified in the caller's frame
+	up   *c15Roles
+	bind map[*types.Var]ast.Expr
 }
 
 func (e *c15Env) rolesFor(f *an.Func) *c15Roles { return &c15Roles{e: e, f: f, r: c15ResolverOf(f)} }
+
+// bound: x is (after following locals) a parameter of the helper that is bound
+// to an argument of the call being classified.
+func (ro *c15Roles) bound(x ast.Expr) (ast.Expr, bool) {
+	if ro.up == nil || x == nil {
+		return nil, false
+	}
+	v := ro.r.Resolve(x)
+	if pv, ok := v.Obj.(*types.Var); ok {
+		if a, has := ro.bind[pv]; has {
+			return a, true
+		}
+	}
+	return nil, false
+}
+
+// constBool: the expression is a boolean constant (literal, named constant, a
+// local assigned once from one, or a helper parameter bound to one).
+func (ro *c15Roles) constBool(x ast.Expr, depth int) (val, ok bool) {
+	if x == nil || depth > 6 {
+		return false, false
+	}
+	isC := func(y ast.Expr) (bool, bool) {
+		tv, has := ro.r.info.Types[y]
+		if !has || tv.Value == nil || tv.Value.Kind() != constant.Bool {
+			return false, false
+		}
+		return constant.BoolVal(tv.Value), true
+	}
+	if v, ok := isC(x); ok {
+		return v, true
+	}
+	if a, ok := ro.bound(x); ok {
+		return ro.up.constBool(a, depth+1)
+	}
+	if v := ro.r.Resolve(x); v.Expr != nil && v.Call == nil {
+		return isC(v.Expr)
+	}
+	return false, false
+}
+
+// helperRole: the value is the result of a helper - a function of the two
+// governance packages or a closure bound once to a local - that does nothing
+// but return a value of one role on every path.  The helper's parameters are
+// classified as the arguments of this call.  "" when the callee is not such a
+// helper.
+func (ro *c15Roles) helperRole(call *ast.CallExpr, depth int) string {
+	if depth > 4 || call.Ellipsis.IsValid() {
+		return ""
+	}
+	info := ro.r.info
+	var cf *an.Func
+	var params *types.Tuple
+	if fn := an.Callee(info, call); fn != nil {
+		cf = ro.e.p.FuncOf(fn)
+		if cf == nil || cf.Body == nil || (cf.Pkg != ro.e.sys && cf.Pkg != ro.e.nm) {
+			return ""
+		}
+		sig, _ := fn.Type().(*types.Signature)
+		if sig == nil || sig.Variadic() || sig.Results().Len() != 1 {
+			return ""
+		}
+		params = sig.Params()
+	} else if tv, ok := info.Types[call.Fun]; ok && !tv.IsType() {
+		v := ro.r.Resolve(call.Fun)
+		if v.Expr == nil {
+			return ""
+		}
+		lit, isLit := ast.Unparen(v.Expr).(*ast.FuncLit)
+		if !isLit {
+			return ""
+		}
+		cf = ro.e.p.LitFunc(lit)
+		sig, _ := info.TypeOf(lit).(*types.Signature)
+		if cf == nil || cf.Body == nil || sig == nil || sig.Variadic() || sig.Results().Len() != 1 {
+			return ""
+		}
+		params = sig.Params()
+	}
+	if cf == nil || params == nil || params.Len() != len(call.Args) {
+		return ""
+	}
+	in := &c15Roles{e: ro.e, f: cf, r: c15ResolverOf(cf), up: ro, bind: map[*types.Var]ast.Expr{}}
+	for i := 0; i < params.Len(); i++ {
+		in.bind[params.At(i)] = call.Args[i]
+	}
+	role := ""
+	for _, rn := range cf.Graph().Returns() {
+		rs, _ := rn.Ast.(*ast.ReturnStmt)
+		if rs == nil || len(rs.Results) != 1 {
+			return ""
+		}
+		got := in.roleD(rs.Results[0], depth+1)
+		if got == "?" || (role != "" && got != role) {
+			return ""
+		}
+		role = got
+	}
+	return role
+}
 
 func (ro *c15Roles) zeroConst(x ast.Expr) bool {
 	i, ok := c15ConstInt(ro.r.info, x)
@@ -176,6 +284,9 @@ func (ro *c15Roles) roleD(x ast.Expr, depth int) string {
 	info := ro.r.info
 	if c15IsNilExpr(info, x) {
 		return "nil"
+	}
+	if a, ok := ro.bound(x); ok {
+		return ro.up.roleD(a, depth+1)
 	}
 	if ro.e.isTxAmount(ro.f, x, 0) {
 		return "TXAMT"
@@ -200,8 +311,22 @@ func (ro *c15Roles) roleD(x ast.Expr, depth int) string {
 			return "STAKEDRAW"
 		case "types.(*Vote).GetAmount":
 			return "VOTERAW"
+		case "types.(*TxBody).GetAccount":
+			return "ACCOUNT" // generated getter of the field TxBody.Account
 		case "contract/name.getOwner":
-			return "OWNER"
+			// the owner in the working state of the block, or (useInitial) the owner as
+			// of the block start: two different values inside a block
+			flag := c15TypedArg(an.Callee(info, call), call, func(t types.Type) bool {
+				b, ok := t.Underlying().(*types.Basic)
+				return ok && b.Info()&types.IsBoolean != 0
+			})
+			if initial, ok := ro.constBool(flag, 0); ok {
+				if initial {
+					return "OWNER0"
+				}
+				return "OWNER"
+			}
+			return "?"
 		case "types.NewZeroAmount":
 			return "ZERO"
 		case "math/big.NewInt":
@@ -236,6 +361,11 @@ func (ro *c15Roles) roleD(x ast.Expr, depth int) string {
 				}
 			}
 		}
+		// a helper (extracted function, exported accessor, local closure) that only
+		// hands on a value of one role
+		if hr := ro.helperRole(call, depth); hr != "" {
+			return hr
+		}
 		return "?"
 	}
 	if v.Obj != nil {
@@ -262,8 +392,14 @@ func (ro *c15Roles) roleD(x ast.Expr, depth int) string {
 	}
 	if be, ok := ast.Unparen(v.Expr).(*ast.BinaryExpr); ok && be.Op == token.ADD {
 		for _, pr := range [][2]ast.Expr{{be.X, be.Y}, {be.Y, be.X}} {
+			// the time of the last staking action: the getter or the field itself
 			w := ro.r.Resolve(pr[0])
-			if w.Call == nil || c15CalleeName(info, w.Call) != "types.(*Staking).GetWhen" {
+			isWhen := w.Call != nil && w.Idx == 0 && c15CalleeName(info, w.Call) == "types.(*Staking).GetWhen"
+			if !isWhen && w.Call == nil && w.Expr != nil {
+				whenF := ro.e.p.LookupField("types", "Staking", "When")
+				isWhen = whenF != nil && an.FieldOf(info, w.Expr) == whenF
+			}
+			if !isWhen {
 				continue
 			}
 			var id *ast.Ident
@@ -485,46 +621,61 @@ func (e *c15Env) guards() {
 		}
 		want := strings.Split(sp.atom, "|")
 		// condition vertices whose expression has a leaf comparing the two roles
-		var conds []*an.Node
-		seen := map[*an.Node]bool{}
-		for _, n := range g.Nodes {
-			if n.Kind != an.KTrue || n.Cond == nil || seen[n.Cond] {
-				continue
-			}
-			x, ok := n.Cond.Ast.(ast.Expr)
-			if !ok {
-				continue
-			}
-			if tv, has := info.Types[x]; !has || tv.Type == nil {
-				continue
-			} else if b, isB := tv.Type.Underlying().(*types.Basic); !isB || b.Info()&types.IsBoolean == 0 {
-				continue
-			}
-			seen[n.Cond] = true
-			hit := false
-			c15Leaves(x, func(l ast.Expr) {
-				// follow boolean locals one level
-				if id, isID := l.(*ast.Ident); isID {
-					if v := ro.r.Resolve(id); v.Expr != nil && ast.Unparen(v.Expr) != l {
-						c15Leaves(v.Expr, func(l2 ast.Expr) {
-							a, b := ro.atomPair(l2)
-							if (a == want[0] && b == want[1]) || (a == want[1] && b == want[0]) {
-								hit = true
-							}
-						})
+		// (boolean locals assigned once stand for their definition)
+		findConds := func(w0, w1 string) []*an.Node {
+			var out []*an.Node
+			seen := map[*an.Node]bool{}
+			for _, n := range g.Nodes {
+				if n.Kind != an.KTrue || n.Cond == nil || seen[n.Cond] {
+					continue
+				}
+				x, ok := n.Cond.Ast.(ast.Expr)
+				if !ok {
+					continue
+				}
+				if tv, has := info.Types[x]; !has || tv.Type == nil {
+					continue
+				} else if b, isB := tv.Type.Underlying().(*types.Basic); !isB || b.Info()&types.IsBoolean == 0 {
+					continue
+				}
+				seen[n.Cond] = true
+				hit := false
+				var leaf func(l ast.Expr, depth int)
+				leaf = func(l ast.Expr, depth int) {
+					if id, isID := l.(*ast.Ident); isID {
+						if v := ro.r.Resolve(id); depth < 4 && v.Expr != nil && ast.Unparen(v.Expr) != l {
+							c15Leaves(v.Expr, func(l2 ast.Expr) { leaf(l2, depth+1) })
+						}
+						return
 					}
-					return
+					a, b := ro.atomPair(l)
+					if (a == w0 && b == w1) || (a == w1 && b == w0) {
+						hit = true
+					}
 				}
-				a, b := ro.atomPair(l)
-				if (a == want[0] && b == want[1]) || (a == want[1] && b == want[0]) {
-					hit = true
+				c15Leaves(x, func(l ast.Expr) { leaf(l, 0) })
+				if hit && (armEdges == nil || g.Dominated(n.Cond, armEdges)) {
+					out = append(out, n.Cond)
 				}
-			})
-			if hit && (armEdges == nil || g.Dominated(n.Cond, armEdges)) {
-				conds = append(conds, n.Cond)
 			}
+			return out
 		}
+		conds := findConds(want[0], want[1])
 		if len(conds) == 0 {
+			// the same comparison against the owner as of the block start is not the guard:
+			// say so instead of "missing"
+			stale := false
+			for i, w := range want {
+				if w == "OWNER" {
+					alt := []string{want[0], want[1]}
+					alt[i] = "OWNER0"
+					stale = stale || len(findConds(alt[0], alt[1])) > 0
+				}
+			}
+			if stale {
+				c.Check("guard", key, f.Pos(), false, "the only branch condition comparing "+want[0]+" with "+want[1]+" here reads the owner as of the block start (useInitial=true / GetInitialData, e.g. through the exported GetOwner) instead of the working state of the block: after an earlier transaction of the same block changed the name the check decides on the replaced owner ("+sp.why+")")
+				continue
+			}
 			c.Check("guard", key, f.Pos(), false, "no branch condition compares "+want[0]+" with "+want[1]+" here: the guard is missing ("+sp.why+")")
 			continue
 		}
@@ -711,7 +862,7 @@ func (e *c15Env) refreshBypass(f *an.Func, key string, guardConds []*an.Node, su
 		switch {
 		case isGuard[cond]:
 			class = "shrink-guard"
-		case blockto != nil && c15MentionsField(info, x, blockto):
+		case blockto != nil && e.readsField(f, x, blockto):
 			class = "expired-proposal"
 		}
 		ckey := class
@@ -724,13 +875,99 @@ func (e *c15Env) refreshBypass(f *an.Func, key string, guardConds []*an.Node, su
 	c.Floor("refresh-bypass", 1)
 }
 
+// c15MentionsField: the expression reads the field, directly or through locals
+// of the enclosing function that are assigned exactly once (a condition kept in
+// a bool local, a field copied into a local).
 func c15MentionsField(info *types.Info, x ast.Node, f *types.Var) bool {
+	m := &c15Mention{field: f, seen: map[types.Object]bool{}, seenFn: map[*an.Func]bool{}}
+	return m.in(info, x, 0)
+}
+
+type c15Mention struct {
+	p      *an.Prog // non-nil: static callees with a body in pkgs are followed as well
+	pkgs   map[*packages.Package]bool
+	field  *types.Var
+	seen   map[types.Object]bool
+	seenFn map[*an.Func]bool
+}
+
+// c15SingleDef: the defining expression of a local assigned exactly once, from
+// the single-assignment tables built so far (object identity; nil if unknown).
+func c15SingleDef(o types.Object) ast.Node {
+	for _, r := range c15Resolvers {
+		if d, ok := r.defs[o]; ok {
+			if r.cnt[o] != 1 {
+				return nil
+			}
+			if d.call != nil {
+				return d.call
+			}
+			if d.expr != nil {
+				return d.expr
+			}
+			return nil
+		}
+	}
+	return nil
+}
+
+func (m *c15Mention) in(info *types.Info, x ast.Node, depth int) bool {
+	if x == nil || depth > 6 {
+		return false
+	}
 	found := false
 	ast.Inspect(x, func(n ast.Node) bool {
-		if s, ok := n.(*ast.SelectorExpr); ok && an.FieldOf(info, s) == f {
-			found = true
+		if found {
+			return false
+		}
+		switch y := n.(type) {
+		case *ast.SelectorExpr:
+			if an.FieldOf(info, y) == m.field {
+				found = true
+			}
+		case *ast.Ident:
+			o, ok := info.Uses[y].(*types.Var)
+			if !ok || o.IsField() || m.seen[o] {
+				return true
+			}
+			m.seen[o] = true
+			if d := c15SingleDef(o); d != nil && m.in(info, d, depth+1) {
+				found = true
+			}
+		case *ast.CallExpr:
+			if m.p == nil {
+				return true
+			}
+			var cf *an.Func
+			if fn := an.Callee(info, y); fn != nil {
+				cf = m.p.FuncOf(fn)
+			} else if id, isID := ast.Unparen(y.Fun).(*ast.Ident); isID {
+				// a closure bound once to a local
+				if d, _ := c15SingleDef(info.Uses[id]).(ast.Expr); d != nil {
+					if lit, isLit := ast.Unparen(d).(*ast.FuncLit); isLit {
+						cf = m.p.LitFunc(lit)
+					}
+				}
+			}
+			if cf == nil || cf.Body == nil || !m.pkgs[cf.Pkg] || m.seenFn[cf] {
+				return true
+			}
+			m.seenFn[cf] = true
+			c15ResolverOf(cf)
+			if m.in(cf.Info(), cf.Body, depth+1) {
+				found = true
+			}
 		}
 		return !found
 	})
 	return found
+}
+
+// readsField: c15MentionsField that also follows helpers of the two governance
+// packages (an extracted predicate, a local closure).
+func (e *c15Env) readsField(f *an.Func, x ast.Node, field *types.Var) bool {
+	c15ResolverOf(f)
+	m := &c15Mention{p: e.p, pkgs: map[*packages.Package]bool{e.sys: true, e.nm: true}, field: field,
+		seen: map[types.Object]bool{}, seenFn: map[*an.Func]bool{}}
+	return m.in(f.Info(), x, 0)
 }
